@@ -15,6 +15,6 @@ U_TxSigCost == << 0, 0, 0, 0, 0 >>
 U_SlotParent == << 0 >>
 U_Script == <<  >>
 U_Policies == << [maxw |-> 3000000, minw |-> 0, prio |-> 0, minfree |-> 1000], [maxw |-> 1876, minw |-> 0, prio |-> 0, minfree |-> 0], [maxw |-> 4000000, minw |-> 1426, prio |-> 200000, minfree |-> 12000] >>
-U_Variants == << [pol |-> 1, pay |-> "none", clk0 |-> "wall", clk1 |-> "wall"], [pol |-> 2, pay |-> "p2pkh", clk0 |-> "near", clk1 |-> "far"], [pol |-> 3, pay |-> "p2sh", clk0 |-> "far", clk1 |-> "near"], [pol |-> 1, pay |-> "p2pkh", clk0 |-> "near", clk1 |-> "near"], [pol |-> 2, pay |-> "p2wpkh", clk0 |-> "far", clk1 |-> "far"] >>
+U_Variants == << [pol |-> 1, pay |-> "none", clk0 |-> "wall", clk1 |-> "wall"], [pol |-> 2, pay |-> "p2pkh", clk0 |-> "near", clk1 |-> "far"], [pol |-> 3, pay |-> "p2sh", clk0 |-> "far", clk1 |-> "near"], [pol |-> 1, pay |-> "p2pkh", clk0 |-> "near", clk1 |-> "mtp"], [pol |-> 2, pay |-> "p2wpkh", clk0 |-> "mtp", clk1 |-> "mtp+1"], [pol |-> 1, pay |-> "none", clk0 |-> "mtp-1", clk1 |-> "far"] >>
 U_CbWeight == [none |-> 300, p2pkh |-> 396, p2sh |-> 388, p2wpkh |-> 384]
 ====
